@@ -423,7 +423,7 @@ class Builder:
         name = "DC%d" % next(_counter)
         ns["__qualname__"] = name
         root = utype.Schema if base == "Schema" else utype.DataClass
-        how = self._route(["own"] * 5 + ["inherited", "mixins"]) if fields and not extra_ns else "own"
+        how = self._route(["own"] * 5 + ["inherited", "mixins", "chain"]) if fields and not extra_ns else "own"
         if how == "own":
             cls = type(root)(name, (root,), ns)
         else:
@@ -442,6 +442,15 @@ class Builder:
                 second = type(root)(name + "B", (root,), decoy)
                 self.created.append(second)
                 bases = (first, second)
+            if how == "chain":
+                # Base -> Mid -> Leaf: the annotations live two levels up; the leaf re-assigns the defaults WITHOUT annotating
+                # (the documented "use the inherited annotation" form), so every field keeps its declared type
+                mid = type(root)(name + "M", (first,), {"__module__": "vmon_generated", "__qualname__": name + "M"})
+                self.created.append(mid)
+                bases = (mid,)
+                for fname, fs, required, dkey in fields:
+                    if not required and fname in ns:
+                        own[fname] = ns[fname]
             cls = type(root)(name, bases, dict(own, __qualname__=name))
         self.created.append(cls)
         self.dc_map[spec] = cls
